@@ -193,7 +193,24 @@ partial def loop (h : IO.FS.Stream) (out : IO.FS.Stream) : IO Unit := do
     | some t => if (t.startsWith "w=" || t.startsWith "rd=") && toks.length > 1 then toks.dropLast else toks
     | none => toks
   let toks := strip (strip toks)
-  out.putStrLn (handle toks)
+  -- a trailing `ep=<form>` selects the entry-point form of an open/verify request:
+  -- `all` (Open / Verify / SigncryptOpen) and `arm` (the Dearmor62… all-at-once
+  -- forms on the armored bytes) return NOTHING unless the run ended cleanly
+  -- (`Decrypt.openAll`, `Sign.verifyAll`, `Signcrypt.openAll` = the streaming
+  -- result with the bytes dropped on error — C01_forms_agree); `armstream` is the
+  -- streaming form over the dearmored bytes (dearmor ∘ armor = id, C11)
+  let (toks, ep) := match toks.getLast? with
+    | some t => if t.startsWith "ep=" && toks.length > 1 then (toks.dropLast, (t.drop 3).toString) else (toks, "")
+    | none => (toks, "")
+  let ans := handle toks
+  let ans := if ep == "all" || ep == "arm" then
+      match ans.splitOn " " with
+      | "res" :: cls :: rest =>
+        if cls == "ok" then ans
+        else " ".intercalate ("res" :: cls :: rest.map (fun t => if t.startsWith "rel=" then "rel=-" else t))
+      | _ => ans
+    else ans
+  out.putStrLn ans
   out.flush
   loop h out
 
